@@ -177,6 +177,8 @@ func c10(c *Ctx) {
 		}
 	}
 	boundsFor(c, "C10", entries)
+	r.Infof("CTR.twofrag: %d fragment loop(s) recognised and reached (a loop of another shape is not decided)", len(c.fragLoopsSeen))
+	r.Infof("CTR.lenprefix: %d length-prefix/data pair(s) recognised and reached", len(c.lenPairsSeen))
 	structC10(c)
 }
 
